@@ -179,6 +179,17 @@ func init() {
 	// every call site is assumed to match (WithLabelValues panics otherwise)
 	nonNilIface := func(x *Exec, st *State, fr *Frame, c *callCtx) bool {
 		x.callCounter++
+		// WithLabelValues panics on a label value that is not valid UTF-8. Label values that the server makes up
+		// (constants, String() of its own types, formatted numbers, the name / protocol tags it sets itself) are
+		// valid; anything else may be text a client sent (a path segment, an id): a panic obligation.
+		if c.common != nil && strings.HasSuffix(c.name, ".WithLabelValues") {
+			for _, lv := range labelValueOperands(c.common) {
+				if !serverMadeString(lv, 0) {
+					x.oblige(st, "panic", "metric label value is made up by the server (WithLabelValues panics on a value that is not valid UTF-8, which text taken from a request can be)", TFalse, c.common.Pos(), x.panicProps)
+					break
+				}
+			}
+		}
 		return x.finish(st, fr, c, VIface{Nil: TFalse, Typ: c.ret.Type(), Id: x.sym.Fresh("metric.id", SErr)})
 	}
 	reg("(*github.com/prometheus/client_golang/prometheus.GaugeVec).WithLabelValues", "returns a non-nil gauge; ASSUMED: the number of label values matches the vector's label names (fixed in metrics.New), otherwise it panics", nonNilIface)
@@ -1046,4 +1057,76 @@ func init() {
 	reg("(error).Error", "err.Error(): an arbitrary string", func(x *Exec, st *State, fr *Frame, c *callCtx) bool {
 		return x.finish(st, fr, c, VScalar{x.sym.Fresh("err.Error", SStr)})
 	})
+}
+
+// labelValueOperands: the values packed into the variadic argument of a WithLabelValues call.
+func labelValueOperands(common *ssa.CallCommon) []ssa.Value {
+	if len(common.Args) == 0 {
+		return nil
+	}
+	last := common.Args[len(common.Args)-1]
+	sl, ok := last.(*ssa.Slice)
+	if !ok {
+		return nil
+	}
+	alloc, ok := sl.X.(*ssa.Alloc)
+	if !ok || alloc.Referrers() == nil {
+		return nil
+	}
+	var out []ssa.Value
+	for _, r := range *alloc.Referrers() {
+		ia, ok := r.(*ssa.IndexAddr)
+		if !ok || ia.Referrers() == nil {
+			continue
+		}
+		for _, rr := range *ia.Referrers() {
+			if stv, ok := rr.(*ssa.Store); ok && stv.Addr == ssa.Value(ia) {
+				out = append(out, stv.Val)
+			}
+		}
+	}
+	return out
+}
+
+// serverMadeString: a syntactic sufficient condition for "this string was not taken from a request".
+func serverMadeString(v ssa.Value, depth int) bool {
+	if depth > 6 {
+		return false
+	}
+	switch t := v.(type) {
+	case *ssa.Const:
+		return true
+	case *ssa.Call:
+		if t.Call.IsInvoke() {
+			return t.Call.Method.Name() == "String"
+		}
+		if f := t.Call.StaticCallee(); f != nil {
+			switch {
+			case f.Name() == "String", f.Name() == "boolToStatus":
+				return true
+			case f.Pkg != nil && f.Pkg.Pkg.Path() == "strconv" && (f.Name() == "Itoa" || f.Name() == "FormatInt"):
+				return true
+			}
+		}
+		return false
+	case *ssa.Phi:
+		for _, e := range t.Edges {
+			if !serverMadeString(e, depth+1) {
+				return false
+			}
+		}
+		return true
+	case *ssa.Lookup:
+		// tags["name"], Tags["protocol"]: set by the server for every submission
+		if k, ok := t.Index.(*ssa.Const); ok && k.Value != nil {
+			ks := k.Value.ExactString()
+			return ks == "\"name\"" || ks == "\"protocol\""
+		}
+		return false
+	case *ssa.Extract:
+		return serverMadeString(t.Tuple, depth+1)
+	case *ssa.UnOp:
+		return false
+	}
+	return false
 }
